@@ -1,6 +1,7 @@
 //! p2h: correspondence harness. `p2h emit <prop> <seed> <quick|thorough> <outdir>` runs the real
 //! plonky2 code on generated inputs and writes request lines (req.txt), the implementation's
 //! answers (impl.txt) and the input distribution (meta.json).
+mod c01;
 mod c03;
 mod c04;
 mod c05;
@@ -10,6 +11,7 @@ mod c13;
 mod c14;
 mod c15;
 mod c16;
+mod c18;
 mod dump;
 mod progs;
 mod util;
@@ -37,11 +39,13 @@ fn main() {
     let extra = serde_json::json!({});
     match prop {
         "c14" => c14::emit(&mut e, seed, thorough),
+        "c01" => c01::emit(&mut e, seed, thorough),
         "c03" => c03::emit(&mut e, seed, thorough),
         "c04" => c04::emit(&mut e, seed, thorough),
         "c07" => c07::emit(&mut e, seed, thorough),
         "c05" => c05::emit(&mut e, seed, thorough),
         "c12" => c12::emit(&mut e, seed, thorough),
+        "c18" => c18::emit(&mut e, seed, thorough),
         "c16" => c16::emit(&mut e, seed, thorough),
         "c15" => c15::emit(&mut e, seed, thorough),
         "c13" => c13::emit(&mut e, seed, thorough),
